@@ -141,6 +141,10 @@ def rand_stmt(rng, labels, allow_pcr=True):
         mn = rng.choice(["JMP", "JSR", "LDX", "LDA", "STD", "LDY", "CMPX"])
         forms = [">%s", "%s", "%s+1", "[%s]", "%s-2"] + (["#%s"] if mn in ("LDX", "LDY", "CMPX") else [])
         return "%s %s" % (mn, rng.choice(forms) % L)
+    if r < 0.525 and L:
+        # a symbol as a data element (today it emits zeros: known-finding class symbol_in_data); whatever it emits,
+        # the bytes must be as many as the statement's reserved size
+        return rng.choice(["FDB %s", "FCB %s", "FDB %s+1"]) % L
     if r < 0.58:
         return "RMB %d" % rng.choice([0, 1, 2, 5, 100, 120, 121, 122, 123, 124, 125, 126, 127, 128, 129, 130, 250, 300])
     if r < 0.64:
@@ -276,6 +280,21 @@ def branch_cases(rng, tier):
         for mn in ("LEAX", "LDY"):
             yield ([" %s T,PCR\n" % mn] + filler(n) + ["T NOP\n"], {"kind": "pcr", "dir": "fwd", "n": n})
             yield (["T NOP\n"] + filler(n) + [" %s T,PCR\n" % mn], {"kind": "pcr", "dir": "bwd", "n": n})
+    # label+k,PCR / label-k,PCR with k chosen so that the net displacement lies around the 8-bit limits in both
+    # directions (the constant, not the distance to the label, decides the width)
+    nets = list(range(-133, -123)) + list(range(122, 132)) if q else list(range(-140, -115)) + list(range(115, 140))
+    for mn in (["LEAX", "LDA"] if q else pcr_mn):
+        for n in ([0, 60, 200] if q else [0, 1, 60, 126, 127, 128, 200, 300, 1000]):
+            for net in nets:
+                for ind in (["%s,PCR"] if q else ["%s,PCR", "[%s,PCR]"]):
+                    # backward: statement at T+1+n, 8-bit form is 3 bytes long (4 with a page prefix): net = k - n - 4
+                    k = net + n + 4
+                    e = "T+%d" % k if k >= 0 else "T-%d" % -k
+                    yield (["T NOP\n"] + filler(n) + [" %s %s\n" % (mn, ind % e)], {"kind": "pcr", "dir": "bwd-const", "n": n, "net": net})
+                    # forward: target T at a + size + n: net = n + k
+                    k = net - n
+                    e = "T+%d" % k if k >= 0 else "T-%d" % -k
+                    yield ([" %s %s\n" % (mn, ind % e)] + filler(n) + ["T NOP\n"], {"kind": "pcr", "dir": "fwd-const", "n": n, "net": net})
     # several undecided PCR statements whose sizes depend on each other
     for _ in range(600 if q else 20000):
         k = rng.randrange(1, 5)
@@ -312,7 +331,8 @@ def expr_cases(rng, tier):
                  ("idx", "LDA %s,X"), ("idx", "LDX %s,Y"), ("pcr", "LEAX %s,PCR"), ("equ", "R EQU %s"), ("fcb", "FCB %s"), ("fdb", "FDB %s")]
     nums = [0, 1, 2, 5, 15, 16, 100, 127, 128, 255, 256, 257, 1000, 4096, 32767, 32768, 65535]
     ops = ["+", "-", "*", "/"]
-    n_each = 14 if q else 120
+    NEG_NUMS = [-1, -2, -3, -5, -7, -16, -100, -127, -128, -129, -255, -256, -300, -1000, -32768]
+    n_each = 16 if q else 140
     for pos, tmpl in positions:
         for kinds in [("num", "num"), ("equ", "num"), ("num", "equ"), ("equ", "equ"), ("lb", "num"), ("la", "num"), ("num", "lb"), ("lb", "lb"), ("lb", "equ"), ("single-equ",), ("single-lb",), ("single-la",)]:
             for _ in range(n_each if len(kinds) == 2 else 4):
@@ -330,9 +350,9 @@ def expr_cases(rng, tier):
                         terms.append(("num", v))
                         texts.append(num_spell(rng, v))
                     elif kd == "equ":
-                        v = rng.choice(nums)
+                        v = rng.choice(nums + NEG_NUMS) if rng.random() < 0.5 else rng.choice(nums)
                         nm = "V%d" % side
-                        pre.append("%s EQU %s\n" % (nm, num_spell(rng, v)))
+                        pre.append("%s EQU %s\n" % (nm, num_spell(rng, v) if v >= 0 else str(v)))
                         terms.append(("equ", nm, v))
                         texts.append(nm)
                     elif kd == "lb":
